@@ -92,6 +92,8 @@ def extract(res):
     out['Tres'] = arr(rs.Tresoutput) if rs.has('Tresoutput') else None
     out['Tprod'] = arr(wb.ProducedTemperature) if wb.has('ProducedTemperature') else None
     out['redrill'] = f(wb.redrill) if wb.has('redrill') else None
+    for k in ('DPProdWell', 'DPInjWell'):
+        out[k] = arr(getattr(wb, k)) if wb.has(k) else None
     for k in ('NetkWhProduced', 'HeatkWhProduced', 'cooling_kWh_Produced', 'PumpingkWh'):
         out[k] = arr(getattr(sp, k)) if sp.has(k) else None
     if s.addeconomics is not None:
